@@ -193,7 +193,7 @@ macro_rules! from_bech32_total {
 //@ harness: from_bech32_l0 class=F tier=quick props=C10 timeout=900
 //@ clause: the real Address::from_bech32 (blech32 decoder for blinded, bech32-crate decoder for unblinded) on the empty string, all networks: Err, no panic
 from_bech32_total!(from_bech32_l0, 0, 4);
-//@ harness: from_bech32_l3 class=F tier=quick props=C10 timeout=900
+//@ harness: from_bech32_l3 class=F tier=thorough props=C10 timeout=900
 //@ clause: same, every 3-character ASCII string (incl. "el1", "ex1": empty data part)
 from_bech32_total!(from_bech32_l3, 3, 7);
 //@ harness: from_bech32_l4 class=F tier=thorough props=C10 timeout=1800
